@@ -119,6 +119,11 @@ int main(int argc, char** argv) {
             char* p = strchr(w, ','); var first = NULL;
             while (p && p[1]) { int64_t v = strtoll(p + 1, &p, 10); var e = new_raw(Int, $I(v)); if (!first) first = e; push(a, e); if (*p != ',') break; }
             if (w[1] == 'D' && first) push(a, first);
+          } else if (w[1] == 'V' || w[1] == 'v') {      /* a Slice over a Table (V) / a Tree (v) of Int -> Int: shown as the list of the keys it yields */
+            var tb = w[1] == 'V' ? (var)new(Table, Int, Int) : (var)new(Tree, Int, Int);
+            char* p = strchr(w, ','); int k = 0; int64_t key = 0;
+            while (p && p[1]) { int64_t v = strtoll(p + 1, &p, 10); if (k % 2) set(tb, $I(key), $I(v)); else key = v; k++; if (*p != ',') break; }
+            a = new(Slice, tb);
           } else if (w[1] == 'R') {                     /* a Range start,stop,step: shown as the list of the values it yields (64-bit Ints) */
             char* p = strchr(w, ','); int64_t v[3] = {0, 0, 1}; int k = 0;
             while (p && p[1] && k < 3) { v[k++] = strtoll(p + 1, &p, 10); if (*p != ',') break; }
@@ -143,7 +148,7 @@ int main(int argc, char** argv) {
           parts[np] = strdup(c_str(t)); plen[np] = strlen(c_str(t)); isconv[np] = 1; np++;
           /* a container's text is not taken on trust: it must contain its elements' own show texts, each once, in iteration
              order, joined the way that container kind joins them (built here from foreach + show of every element) */
-          if (w[1] == 'A' || w[1] == 'L' || w[1] == 'T' || w[1] == 'U' || w[1] == 'X' || w[1] == 'R') {
+          if (w[1] == 'A' || w[1] == 'L' || w[1] == 'T' || w[1] == 'U' || w[1] == 'X' || w[1] == 'R' || w[1] == 'V' || w[1] == 'v') {
             static char body[1 << 16]; size_t bl = 0; int first = 1; size_t cnt = 0, lim = len(a) + 2;
             const char* open_ = w[1] == 'T' ? "{" : w[1] == 'U' ? "(" : "[";  const char* close_ = w[1] == 'T' ? "}" : w[1] == 'U' ? ")" : "]";
             bl += (size_t)snprintf(body + bl, sizeof body - bl, "%s", open_);
